@@ -160,10 +160,48 @@ class Engine:
         self.decided[key] = (d, cond)
         return d
 
-    def _branch(self, cond):
+    def pick(self, z):
+        """a concrete value of the integer term z on this path; the other feasible values are explored
+        on other paths.  The value tried at each step is recorded in the decision trail, so that
+        re-execution proposes the same values in the same order."""
+        for _ in range(100000):
+            i = self.pos
+            if i < len(self.trail):
+                e = self.trail[i]
+                if not isinstance(e, tuple):
+                    raise RuntimeError("harness is not deterministic: value decision expected in the trail")
+                v = e[1]
+            else:
+                m = self.get_model()
+                if m is None:
+                    raise Abort()
+                v = m.eval(z, model_completion=True).as_long()
+            self.stats["concretized"] += 1
+            cond = z3.simplify(z == v)
+            if z3.is_true(cond):
+                return v
+            if z3.is_false(cond):
+                raise Abort()
+            hit = self.decided.get(cond.get_id())
+            if hit is not None:
+                if hit[0]:
+                    return v
+                self.model = None
+                continue
+            d = self._branch(cond, v)
+            self.decided[cond.get_id()] = (d, cond)
+            if d:
+                return v
+            if self.model is not None and z3.is_true(self.model.eval(cond, model_completion=True)):
+                self.model = None
+        raise Unsupported("symbolic index with too many values")
+
+    def _branch(self, cond, tagval=None):
         i = self.pos
         if i < len(self.trail):
             d = self.trail[i]
+            if isinstance(d, tuple):
+                d = d[0]
             replay = True
         else:
             replay = False
@@ -183,10 +221,10 @@ class Engine:
             r, m = self._check(other)
             if r == "sat":
                 self.nforks += 1
-                self.worklist.append((self.trail[:i] + [not d], m, self.nforks))
+                self.worklist.append((self.trail[:i] + [(not d) if tagval is None else ((not d), tagval)], m, self.nforks))
             elif r == "unknown":
                 self.inconclusive.append("unknown at branch feasibility check (branch not explored)")
-            self.trail.append(d)
+            self.trail.append(d if tagval is None else (d, tagval))
         if i + 1 >= self.retain:
             self.solver.push()
             self.nframes += 1
